@@ -117,9 +117,28 @@ Proof.
   rewrite forallb_map_comp. apply forallb_ext'. intros ch. unfold zlen. now rewrite map_length.
 Qed.
 
+(* a float label array that passed the guard of the D117 fix: every cast value is 0
+   or a described number *)
+Lemma float_label_described : forall c ps,
+  (forall k, In k (concat ps) -> k = 0 \/ k = den c) -> 0 < den c ->
+  existsb (fun k => k =? den c) (concat ps) && negb (memz 1 (segs c)) = false ->
+  forallb (fun v => memz v (0 :: segs c)) (concat (map (map (cast_float_bin (den c))) ps)) = true.
+Proof.
+  intros c ps H01 Hd Hg. apply forallb_forall. intros v Hv.
+  apply in_concat in Hv as (l & Hl & Hv). apply in_map_iff in Hl as (pl & <- & Hpl).
+  apply in_map_iff in Hv as (k & <- & Hk).
+  assert (Hin : In k (concat ps)) by (apply in_concat; now exists pl).
+  apply memz_in. unfold cast_float_bin. destruct (H01 k Hin) as [-> | ->].
+  - left. symmetry. apply Zdiv_0_l.
+  - right. rewrite Z.div_same by lia.
+    assert (He : existsb (fun k => k =? den c) (concat ps) = true).
+    { apply existsb_exists. exists (den c). split; [exact Hin|lia]. }
+    rewrite He in Hg. cbn [andb] in Hg. apply negb_false_iff in Hg. now apply memz_in.
+Qed.
+
 Lemma float_values : forall c i a,
   dt c = DFloat -> check_and_cast c i = Ok a -> 0 < den c ->
-  (if is_stack i then true else list_eqb (segs c) [1]) = true ->
+  float_label_ok c i = true ->
   values_ok c i = true.
 Proof.
   intros c i a Hd Ha Hden Hlab. unfold values_ok. rewrite Hd, Hlab.
@@ -142,20 +161,14 @@ Proof.
              [left; apply Zdiv_0_l | right; apply Z.div_same; lia]).
   - (* BINARY *)
     destruct i as [ps|ps]; cbn [cast_in int_values_ok].
-    + cbn [is_stack] in Hlab. rewrite (list_eqb_eq _ _ Hlab). apply forallb_forall. intros v Hv.
-      apply in_concat in Hv as (l & Hl & Hv). apply in_map_iff in Hl as (pl & <- & Hpl).
-      apply in_map_iff in Hv as (k & <- & Hk).
-      assert (Hin : In k (all_pixels (Label ps))) by (cbn [all_pixels]; apply in_concat; now exists pl).
-      apply memz_in. destruct (Hcast k Hin) as [-> | ->]; cbn; auto.
+    + destruct (existsb (fun k => k =? den c) (concat ps) && negb (memz 1 (segs c))) eqn:Eg; [discriminate|].
+      cbn [all_pixels] in H01. now apply float_label_described.
     + rewrite andb_true_r. apply forallb_forall. intros v Hv.
       apply in_all_cast in Hv as (k & Hk & ->). unfold binary01. destruct (Hcast k Hk); lia.
   - (* LABELMAP *)
     destruct i as [ps|ps]; cbn [cast_in int_values_ok].
-    + cbn [is_stack] in Hlab. rewrite (list_eqb_eq _ _ Hlab). apply forallb_forall. intros v Hv.
-      apply in_concat in Hv as (l & Hl & Hv). apply in_map_iff in Hl as (pl & <- & Hpl).
-      apply in_map_iff in Hv as (k & <- & Hk).
-      assert (Hin : In k (all_pixels (Label ps))) by (cbn [all_pixels]; apply in_concat; now exists pl).
-      apply memz_in. destruct (Hcast k Hin) as [-> | ->]; cbn; auto.
+    + destruct (existsb (fun k => k =? den c) (concat ps) && negb (memz 1 (segs c))) eqn:Eg; [discriminate|].
+      cbn [all_pixels] in H01. now apply float_label_described.
     + set (ps' := map (map (map (cast_float_bin (den c)))) ps) in *.
       assert (Hbin : forall v, In v (all_pixels (Stack ps')) -> v = 0 \/ v = 1).
       { intros v Hv. apply in_all_cast in Hv as (k & Hk & ->). now apply Hcast. }
